@@ -233,6 +233,8 @@ type solveOpts struct {
 	workers  int
 	noSecond bool
 	only     map[string]bool // if set: discharge only obligations of these clauses
+	funcFilter map[string]bool // claim -only
+	cache    map[string]*funcResult // claim mode: verify each function once per process
 	stability bool // claim mode: must also discharge under a perturbed solver seed, quickly
 }
 
